@@ -14,7 +14,9 @@ complete body (period-251 pattern seeded by version), consistent marker headers,
 the origin; a response never mixes versions; after the PURGE response was delivered no response carries a
 version that was fetched before the PURGE was sent.  Visibly cut transfers and Squid-generated errors are tolerated.
 """
+import os
 import re
+import shutil
 import time
 
 from vverif import lockstep as ls
@@ -61,10 +63,10 @@ STORES = {'shm': 'cache_mem 8 MB\nmemory_cache_shared on\nmaximum_object_size_in
 
 
 QUICK_BOUND2 = {('purge', 'off', 'shm')}
-THOROUGH_BOUND2_1PAGE = {('purge', 'off', 'shm'), ('read-during-write', 'on', 'shm'), ('refresh', 'off', 'shm')}
+THOROUGH_BOUND2_1PAGE = {('purge', 'off', 'shm'), ('read-during-write', 'on', 'shm')}
 
 
-THOROUGH_BOUND3 = {('purge', 'off', 'shm'), ('read-during-write', 'on', 'shm')}
+THOROUGH_BOUND3 = {('purge', 'off', 'shm')}
 
 
 def cases_for(tier):
@@ -115,6 +117,10 @@ class World:
         self.cf = cf
 
     def start(self):
+        tmpl = os.path.join(self.sq.ctx.rundir, 'rock-template')
+        if os.path.exists(os.path.join(tmpl, '.vinit')):
+            # a rock db created once per run (make_template) saves one ASan process start per instance
+            shutil.copytree(tmpl, self.sq.cache_path, dirs_exist_ok=True)
         self.sq.start()
         log = self.sq.cache_log()
         for n in (1, 2):
@@ -128,6 +134,21 @@ class World:
             self.sq.cleanup()
         finally:
             self.origin.close()
+
+
+def make_template(ctx):
+    """Create an empty rock db (squid -N -z) once; every instance of this run starts from a copy of it."""
+    tmpl = os.path.join(ctx.rundir, 'rock-template')
+    shutil.rmtree(tmpl, ignore_errors=True)
+    w = World(ctx, 'tmpl', ls.port_base_for_check(ctx.pid, 16, 1), 'off', 'shm')
+    try:
+        w.sq.write_conf()
+        w.sq._chown()
+        w.sq.init_cache()
+        shutil.copytree(w.sq.cache_path, tmpl)
+        open(os.path.join(tmpl, '.vinit'), 'w').close()
+    finally:
+        w.stop()
 
 
 class Fetch:
@@ -256,7 +277,7 @@ class Run:
     def unscripted(self):
         """Fetches that no later scripted origin action will answer."""
         named = set()
-        for name, kind, args in self.script:
+        for name, kind, args in self.script[self.pos:]:       # entries already passed (done or skipped) no longer claim a fetch
             if kind == 'origin':
                 f = self.scripted_fetch(args[0])
                 if f is not None:
@@ -479,6 +500,7 @@ def execute(w, case, choices, uid):
     tags = getattr(run, 'tags', {})
     if len(run.fetches) >= 2 and case['scenario'] == 'two-writers':
         run.facts.add('two-fetches')
+    stuck = sorted(n for n, t in tags.items() if t == 'no-response' or t.endswith(':pending'))
     for n, t in tags.items():
         run.facts.add('tag:' + re.sub(r'v\d+', 'v', t))
         if t.startswith('hit:') and run.clients[n].worker == 2:
@@ -486,7 +508,7 @@ def execute(w, case, choices, uid):
         if t.startswith('hit:') and run.clients[n].worker == 1 and case['scenario'] == 'two-writers':
             run.facts.add('worker1-hit')
     return {'violation': v, 'transcript': run.tr, 'states': states, 'transitions': nact, 'chooser': ch, 'facts': sorted(run.facts),
-            'fetches': len(run.fetches), 'tags': tags}
+            'fetches': len(run.fetches), 'tags': tags, 'stuck': stuck}
 
 
 # ------------------------------------------------------------------------------------------------ run
@@ -507,7 +529,8 @@ ASSUME = ['the real squid binary (ASan build of the current tree) runs as master
           'enabled set = kids whose epoll set has ready descriptors (probed with a zero-timeout epoll_wait, level-triggered, nothing consumed) + the next driver action; '
           'virtual time stands still during an execution, so no timer becomes due',
           'executions of one shard share a squid instance (fresh URL per execution, instance quiesced and health-checked between executions); the first executions '
-          'of every shard are repeated on a second instance and must give identical transcripts; violations are replayed twice (first on a fresh instance)',
+          'of the first 8 shards are repeated (thorough: on a second, fresh instance; quick: on the same instance) and must give identical transcripts; violations '
+          'are replayed twice (first on a fresh instance); the quick tier uses 8 shards (an SMP instance is 5 ASan processes)',
           'Squid\'s Cache-Status header is used only to count hits (vacuity guards); the oracle itself relies on version markers and the body pattern']
 
 
@@ -518,6 +541,7 @@ def build(ctx):
     waited = time.time() - t
     if waited > 20:
         ctx.deadline_s += waited - 20
+    make_template(ctx)
     return waited
 
 
@@ -618,7 +642,7 @@ def run(ctx):
     def worker(shard, mine):
         mine = [c for c in mine if c is not None]
         out = {'cases_done': [], 'execs': 0, 'states': set(), 'transitions': 0, 'violations': [], 'facts': {}, 'kicks': 0, 'probes': 0, 'replays': 0,
-               'samples': [], 'crashes': [], 'deadline': False, 'per_case': {}, 'bounds': {}, 'starts': 0}
+               'samples': [], 'crashes': [], 'deadline': False, 'per_case': {}, 'bounds': {}, 'starts': 0, 'stuck': []}
         st = {'w': {}, 'n': 0}
 
         def fresh(kind):
@@ -655,8 +679,9 @@ def run(ctx):
             return r
         try:
             if mine and shard < 2 * len(KINDS):
-                # determinism obligation (two shards per instance kind; an SMP instance start is expensive): the first
-                # executions of this shard's first case on two separate instances
+                # determinism obligation: the first executions of this shard's first case twice -- thorough tier: on two
+                # separate instances (two shards per instance kind; an SMP instance start is expensive); quick tier: on
+                # the same instance with fresh URLs
                 runs = []
                 for rep in range(2):
                     got = []
@@ -664,7 +689,7 @@ def run(ctx):
                                max_exec=4, max_dev=1)
                     runs.append(got)
                     out['replays'] += len(got)
-                    if rep == 0:
+                    if rep == 0 and not ctx.quick:
                         fresh((mine[0]['cf'], mine[0]['store']))
                         st['n'] = 0
                 if runs[0] != runs[1]:
@@ -686,6 +711,9 @@ def run(ctx):
                     key = tuple(ch.choices())
                     if r.get('crash'):
                         out['crashes'].append((cn, list(key), '; '.join(r['crash'])[:2000]))
+                    if r.get('stuck') and len(out['stuck']) < 3:
+                        out['stuck'].append('%s choices %r (deviations %s): client(s) %s still without a complete response when every kid was quiescent and no action was left: %r' % (
+                            cn, list(key), _taken(ch), ','.join(r['stuck']), r['tags']))
                     if len(out['samples']) < 1 and out['execs'] % 23 == 3:
                         out['samples'].append({'case': cn, 'deviations': _taken(ch), 'clients': r['tags'], 'origin_requests': r['fetches'],
                                                'schedule': [l.split(' | ')[0] for l in r['transcript']]})
@@ -722,10 +750,13 @@ def run(ctx):
         out['states'] = list(out['states'])
         return out
 
-    parts = ls.run_sharded(ctx, worker, dealt)
+    try:
+        parts = ls.run_sharded(ctx, worker, dealt, nshards=min(ctx.ncpu, 8) if ctx.quick else None)
+    finally:
+        shutil.rmtree(os.path.join(ctx.rundir, 'rock-template'), ignore_errors=True)
     states = set()
     tot = {'transitions': 0, 'kicks': 0, 'probes': 0, 'replays': 0, 'execs': 0, 'starts': 0}
-    facts, vio, crashes, samples, per_case, done, bounds = {}, {}, [], [], {}, [], {}
+    facts, vio, crashes, samples, per_case, done, bounds, stuck = {}, {}, [], [], {}, [], {}, []
     deadline = False
     for p in parts:
         if p is None:
@@ -739,6 +770,7 @@ def run(ctx):
         for k, what, rp in p['violations']:
             vio.setdefault(k, (what, rp))
         crashes += p['crashes']
+        stuck += p['stuck']
         samples += p['samples']
         for k, n in p['per_case'].items():
             per_case[k.split('#')[0]] = per_case.get(k.split('#')[0], 0) + n
@@ -746,7 +778,7 @@ def run(ctx):
     nunits = len([u for u in dealt if u is not None])
     complete = len(done) == nunits
     violations = [Violation(k, what, rp) for k, (what, rp) in sorted(vio.items())]
-    obs = []
+    obs = ['stuck transaction (not a C19 violation; virtual time is frozen, so no timeout could resolve it): ' + x for x in stuck[:6]]
     seen_crash = set()
     for name, choices, what in crashes:
         ck = 'crash:' + '/'.join(name.split('/')[:1])
